@@ -246,8 +246,13 @@ pub mod verif {
 	use core::sync::atomic::{AtomicU8, Ordering};
 
 	/// Hash mode used by every index created from now on:
-	/// `0` = ahash with fixed seeds, `1` = constant hash, `2` = two-class hash.
+	/// `0` = ahash with fixed seeds, `1` = constant hash, `2` = two-class hash,
+	/// `3` = ahash with a different seed for every index (as in production,
+	/// where every `RandomState` is keyed differently).
 	pub static HASH_MODE: AtomicU8 = AtomicU8::new(0);
+
+	/// Source of the per-index seeds of mode `3`.
+	static NEXT_SEED: core::sync::atomic::AtomicU64 = core::sync::atomic::AtomicU64::new(1);
 
 	type Inner = hashbrown::hash_map::DefaultHashBuilder;
 
@@ -259,10 +264,19 @@ pub mod verif {
 
 	impl Default for VerifHashBuilder {
 		fn default() -> Self {
-			Self {
-				mode: HASH_MODE.load(Ordering::Relaxed),
-				inner: Inner::with_seeds(1, 2, 3, 4),
-			}
+			let mode = HASH_MODE.load(Ordering::Relaxed);
+			let inner = if mode == 3 {
+				let n = NEXT_SEED.fetch_add(1, Ordering::Relaxed);
+				Inner::with_seeds(
+					n,
+					n.wrapping_mul(0x9e37_79b9_7f4a_7c15),
+					n.rotate_left(29),
+					!n,
+				)
+			} else {
+				Inner::with_seeds(1, 2, 3, 4)
+			};
+			Self { mode, inner }
 		}
 	}
 
@@ -278,7 +292,7 @@ pub mod verif {
 
 		fn finish(&self) -> u64 {
 			match self.mode {
-				0 => self.inner.finish(),
+				0 | 3 => self.inner.finish(),
 				1 => 0,
 				_ => self.inner.finish() & 1,
 			}
